@@ -202,6 +202,9 @@ func (c *Ctx) Finish(rule string) {
 		return c.order[i] < c.order[j]
 	})
 	printedKnown := map[string]bool{}
+	if out := os.Getenv("VERIF_KEYS_OUT"); out != "" {
+		_ = os.WriteFile(out, []byte(strings.Join(c.order, "\n")+"\n"), 0o644)
+	}
 	for _, k := range c.order {
 		v := c.viols[k]
 		if f := c.known(k); f != nil {
